@@ -125,7 +125,7 @@ def run_history(hist):
 
 LONG = "LONGER KEY NAME"
 OPS = [("write", "A", "1"), ("write", "A", "two"), ("write", "B2", ""), ("write", LONG, "3.5e7"), ("write", "ORDER3", "x"), ("write", "lower", "x"), ("write", "A.B", "x"),
-       ("write", LONG.lower(), "x"), ("write", "LONGER Key NAME", "x"), ("write", "SHORT lc", "y"), ("write", "KEY=LONGISH", "x"), ("write", "PERIOD0", "1"), ("write", "Ab", "x"), ("write", "ORDERSTATISTIC", "1"), ("write", "COMMENTARY", "c"), ("write", "AB", "ab"), ("write", "A", "1"), ("write", "B2", "q"), ("write", "A", "v" * 75), ("write", LONG, "w" * 70), ("write", "A", "e" * 68), ("write", "A", "f" * 69), ("write", LONG, "g" * (67 - len(LONG))), ("write", LONG, "h" * (68 - len(LONG))), ("write", "Z9", "it's 'quoted'"), ("write", "Q68", "q" * 60 + "'" + "r" * 7), ("write", "Q67", "q" * 60 + "'" + "r" * 6), ("write", LONG, "h" * (66 - len(LONG)) + "'"), ("write", LONG, "h" * (65 - len(LONG)) + "'"),
+       ("write", LONG.lower(), "x"), ("write", "LONGER Key NAME", "x"), ("write", "SHORT lc", "y"), ("write", "KEY=LONGISH", "x"), ("write", "PERIOD0", "1"), ("write", "Ab", "x"), ("write", "ORDERSTATISTIC", "1"), ("write", "COMMENTARY", "c"), ("write", "AB", "ab"), ("write", "A", "1"), ("write", "B2", "q"), ("write", "A", "v" * 75), ("write", LONG, "w" * 70), ("write", "A", "e" * 68), ("write", "A", "f" * 69), ("write", LONG, "g" * (67 - len(LONG))), ("write", LONG, "h" * (68 - len(LONG))), ("write", "Z9", "it's 'quoted'"), ("write", "EIGHTCHR", "x" * 64), ("write", "AB.CDEFG", "x"), ("write", "NINECHARS", "x"), ("write", "Q68", "q" * 60 + "'" + "r" * 7), ("write", "Q67", "q" * 60 + "'" + "r" * 6), ("write", LONG, "h" * (66 - len(LONG)) + "'"), ("write", LONG, "h" * (65 - len(LONG)) + "'"),
        ("remove", "A"), ("remove", "B2"), ("remove", "NOPE"), ("remove", LONG), ("get", "A"), ("get", "B2"), ("get", "NOPE"), ("get", LONG)]
 
 def run_roundtrip(hist):
